@@ -696,6 +696,7 @@ class RTCSctpTransport(AsyncIOEventEmitter):
         # reconfiguration
         self._reconfig_queue: list[int] = []
         self._reconfig_request: Optional[StreamResetOutgoingParam] = None
+        self._reconfig_handle: Optional[asyncio.TimerHandle] = None
         self._reconfig_request_seq = self._local_tsn
         self._reconfig_response_seq = 0
 
@@ -1306,20 +1307,22 @@ class RTCSctpTransport(AsyncIOEventEmitter):
         self.__log_debug("<< %s", param)
 
         if isinstance(param, StreamResetOutgoingParam):
-            # mark closed inbound streams
-            for stream_id in param.streams:
-                self._inbound_streams.pop(stream_id, None)
+            if uint32_gt(param.request_sequence, self._reconfig_response_seq):
+                # mark closed inbound streams
+                for stream_id in param.streams:
+                    self._inbound_streams.pop(stream_id, None)
 
-                # close data channel
-                channel = self._data_channels.get(stream_id)
-                if channel:
-                    self._data_channel_close(channel)
+                    # close data channel
+                    channel = self._data_channels.get(stream_id)
+                    if channel:
+                        self._data_channel_close(channel)
 
-            # send response
+                self._reconfig_response_seq = param.request_sequence
+
+            # send response, a retransmitted request is only acknowledged again
             response_param = StreamResetResponseParam(
                 response_sequence=param.request_sequence, result=1
             )
-            self._reconfig_response_seq = param.request_sequence
 
             await self._send_reconfig_param(response_param)
         elif isinstance(param, StreamAddOutgoingParam):
@@ -1344,6 +1347,7 @@ class RTCSctpTransport(AsyncIOEventEmitter):
                     self._data_channel_closed(stream_id)
 
                 self._reconfig_request = None
+                self._reconfig_cancel()
                 await self._transmit_reconfig()
 
     async def _send(
@@ -1476,6 +1480,7 @@ class RTCSctpTransport(AsyncIOEventEmitter):
             self._t1_cancel()
             self._t2_cancel()
             self._t3_cancel()
+            self._reconfig_cancel()
             self.__state = "closed"
 
             # close data channels
@@ -1544,6 +1549,23 @@ class RTCSctpTransport(AsyncIOEventEmitter):
         self._t2_failures = 0
         self.__log_debug("- T2(%s) start", chunk_type(self._t2_chunk))
         self._t2_handle = self._loop.call_later(self._rto, self._t2_expired)
+
+    def _reconfig_cancel(self) -> None:
+        if self._reconfig_handle is not None:
+            self._reconfig_handle.cancel()
+            self._reconfig_handle = None
+
+    def _reconfig_expired(self) -> None:
+        self._reconfig_handle = None
+        if (
+            self._reconfig_request is not None
+            and self._association_state == self.State.ESTABLISHED
+        ):
+            self.__log_debug("x RE-CONFIG request expired")
+            asyncio.ensure_future(self._send_reconfig_param(self._reconfig_request))
+            self._reconfig_handle = self._loop.call_later(
+                self._rto, self._reconfig_expired
+            )
 
     def _t3_expired(self) -> None:
         self._t3_handle = None
@@ -1670,6 +1692,12 @@ class RTCSctpTransport(AsyncIOEventEmitter):
             self._reconfig_request_seq = tsn_plus_one(self._reconfig_request_seq)
 
             await self._send_reconfig_param(param)
+
+            # retransmit the request until it is answered
+            self._reconfig_cancel()
+            self._reconfig_handle = self._loop.call_later(
+                self._rto, self._reconfig_expired
+            )
 
     def _update_advanced_peer_ack_point(self, retransmit: bool = False) -> None:
         """
